@@ -99,6 +99,19 @@ fn check_config<T: DiffableStr + ?Sized>(
     if let Some(b) = nl {
         cfg.newline_terminated(b);
     }
+    // the same configuration reached by another setter sequence: every setter called twice
+    // (the last value counts), in the opposite order, and the config used once before
+    let other_alg = if alg == Algorithm::Myers { Algorithm::Patience } else { Algorithm::Myers };
+    let mut cfg2 = TextDiff::configure();
+    if let Some(b) = nl {
+        cfg2.newline_terminated(!b);
+    }
+    cfg2.algorithm(other_alg);
+    let _ = cfg2.diff_chars("ab", "ba");
+    if let Some(b) = nl {
+        cfg2.newline_terminated(b);
+    }
+    cfg2.algorithm(alg);
     let slices_o = old.tokenize_lines_and_newlines();
     let slices_n = new.tokenize_lines_and_newlines();
     let diff = match t {
@@ -122,6 +135,29 @@ fn check_config<T: DiffableStr + ?Sized>(
             nl,
             TOKENIZERS[t]
         ));
+    }
+    {
+        let diff2 = match t {
+            0 => cfg2.diff_lines(old, new),
+            1 => cfg2.diff_words(old, new),
+            2 => cfg2.diff_chars(old, new),
+            #[cfg(feature = "unicode")]
+            3 => cfg2.diff_unicode_words(old, new),
+            #[cfg(feature = "unicode")]
+            4 => cfg2.diff_graphemes(old, new),
+            _ => cfg2.diff_slices(&slices_o, &slices_n),
+        };
+        if diff2.algorithm() != alg || diff2.newline_terminated() != want_nl || diff2.ops() != diff.ops() {
+            return Err(format!(
+                "a config set to other values first, used once and then set to ({:?}, newline_terminated {:?}) gives algorithm {:?}, newline_terminated {}, ops {:?}; a fresh config gives {:?}",
+                alg,
+                nl,
+                diff2.algorithm(),
+                diff2.newline_terminated(),
+                diff2.ops(),
+                diff.ops()
+            ));
+        }
     }
     let direct = similar::capture_diff_slices(alg, diff.old_slices(), diff.new_slices());
     if diff.ops() != &direct[..] {
